@@ -808,8 +808,21 @@ def per_call_state(ctx):
         r.check("R12.3", not bad, "serialize::self.%s" % attr, f.where,
                 "HTMLSerializer.serialize does not re-initialise self.%s before the token loop: a second call sees the first "
                 "call's value" % attr, detail={"attr": attr})
-    # other stores to self in the serializer outside __init__
+    # serialize() is a generator: what it stores on self before the first yield is read again after every resumption.  A second
+    # serialize() on the same object that starts in between (interleaved consumption, two threads sharing a serializer)
+    # replaces it under the first one's feet.
     cls = repo.cls("serializer.py", "HTMLSerializer")
+    is_gen = any(isinstance(x, (ast.Yield, ast.YieldFrom)) for x in walk_no_nested(f.node))
+    called = {c.func.attr for c in walk_no_nested(f.node) if isinstance(c, ast.Call) and isinstance(c.func, ast.Attribute) and norm(c.func.value) == "self"}
+    for attr in ("errors", "encoding"):
+        stored = any(isinstance(n, ast.Assign) and any(attr_chain(t) == ["self", attr] for t in n.targets) for n in walk_no_nested(f.node))
+        readers = sorted(mn for mn in called if mn in cls.methods and any(
+            isinstance(x, ast.Attribute) and attr_chain(x) == ["self", attr] and isinstance(x.ctx, ast.Load) for x in ast.walk(cls.methods[mn].node)))
+        r.check("R12.3", not (is_gen and stored and readers), "serialize::suspended-state::self.%s" % attr, f.where,
+                "HTMLSerializer.serialize is a generator that keeps its per-call %s on the object (`self.%s`), where %s read it after every "
+                "resumption: a second serialize() on the same serializer that starts before the first is exhausted switches it mid-stream" % (
+                    attr, attr, ", ".join(readers)), {"attribute": attr, "readers": readers}, detail={"attribute": attr, "readers": readers})
+    # other stores to self in the serializer outside __init__
     for mn, m in cls.methods.items():
         if mn in ("__init__",):
             continue
